@@ -6,6 +6,8 @@ use crate::rng::Rng;
 
 #[derive(Clone, Copy, PartialEq, Debug)]
 pub enum Flavor {
+    /// One field a near-progression list (a `*/n` set with one element removed, moved or added).
+    NearStep,
     /// Many values per field; fires often.
     Dense,
     /// Biased towards sparse day/month fields and long carry chains.
@@ -97,6 +99,24 @@ fn single(rng: &mut Rng, idx: usize) -> String {
 pub fn gen_expr(rng: &mut Rng, flavor: Flavor) -> String {
     let mut f: [String; 5] = Default::default();
     match flavor {
+        Flavor::NearStep => {
+            for slot in f.iter_mut() {
+                *slot = "*".to_string();
+            }
+            let idx = rng.weighted(&[4, 4, 1, 1, 1]);
+            let s = rng.range(2, ((HI[idx] + 1) / 2) as i64) as u32;
+            let l = near_step_list(idx, s, rng.below(4) as u32, rng.below(60) as u32).unwrap_or_else(|| format!("*/{}", s));
+            f[idx] = l;
+            if idx == 1 && rng.chance(1, 2) {
+                f[0] = "0".into();
+            }
+            if rng.chance(1, 4) {
+                let j = rng.usize(5);
+                if j != idx {
+                    f[j] = gen_list(rng, j, 2);
+                }
+            }
+        }
         Flavor::Grammar => {
             // one expression in twenty has long lists (5-24 items per field)
             let max_items = if rng.chance(1, 20) { 24 } else { 4 };
@@ -277,6 +297,19 @@ pub fn boundary_numerics() -> Vec<String> {
             out.push(with_field(idx, &format!("{},{}", t, hi)));
         }
     }
+    // the same tokens inside expressions of one uniform shape (a fast path for "five plain
+    // numbers" or "all names" would only be taken there)
+    let shapes: [[&str; 5]; 4] = [["30", "4", "1", "1", "0"], ["0", "0", "31", "12", "7"], ["59", "23", "15", "jan", "mon"], ["5", "5", "5", "DEC", "SAT"]];
+    for shape in shapes {
+        for idx in 0..5 {
+            for t in toks {
+                let mut f = shape;
+                f[idx] = t;
+                out.push(f.join(" "));
+            }
+        }
+        out.push(shape.join(" "));
+    }
     // names: prefixes, extensions, look-alikes that only differ after Unicode case mapping
     for (idx, names) in [(3usize, &MONTH_NAMES[..]), (4usize, &DOW_NAMES[..])] {
         for n in names {
@@ -297,6 +330,79 @@ pub fn boundary_numerics() -> Vec<String> {
         // a name of the other field
         out.push(with_field(idx, if idx == 3 { "mon" } else { "jan" }));
     }
+    out
+}
+
+/// One near-progression list for field `idx`: the value set of `*/s` with one element removed,
+/// moved or added, written out as a comma list (what a "this is really */n" fast path would
+/// have to tell apart from the real thing).
+pub fn near_step_list(idx: usize, s: u32, variant: u32, k: u32) -> Option<String> {
+    let (lo, hi) = (LO[idx], HI[idx]);
+    let mut vals: Vec<u32> = (lo..=hi).step_by(s as usize).collect();
+    if vals.len() < 2 {
+        return None;
+    }
+    let pos = (k as usize) % vals.len();
+    match variant % 4 {
+        0 => {
+            vals.remove(pos);
+        }
+        1 => {
+            // move one element off the grid
+            let v = vals[pos];
+            let nv = if v + 1 <= hi && !vals.contains(&(v + 1)) { v + 1 } else if v > lo && !vals.contains(&(v - 1)) { v - 1 } else { return None };
+            vals[pos] = nv;
+        }
+        2 => {
+            // add one element off the grid
+            let v = vals[pos];
+            if v + 1 <= hi && !vals.contains(&(v + 1)) {
+                vals.push(v + 1);
+            } else {
+                return None;
+            }
+        }
+        _ => {
+            // swap-distance change: move an element by half a step (keeps count, first and last)
+            if pos == 0 || pos + 1 == vals.len() || s < 4 {
+                return None;
+            }
+            vals[pos] += s / 2;
+        }
+    }
+    vals.sort_unstable();
+    vals.dedup();
+    Some(vals.iter().map(|v| v.to_string()).collect::<Vec<_>>().join(","))
+}
+
+/// Fourth family: near-progression lists in one field, the others `*`, for every step and every
+/// position (bounded per field).
+pub fn near_step_family() -> Vec<String> {
+    let mut out = Vec::new();
+    for idx in 0..5 {
+        let hi = HI[idx];
+        for s in 2..=(hi + 1) / 2 {
+            let n = (hi - LO[idx]) / s + 1;
+            for variant in 0..4 {
+                for k in 0..n.min(8) {
+                    if let Some(l) = near_step_list(idx, s, variant, k * n.max(8) / 8) {
+                        out.push(with_field(idx, &l));
+                        if idx <= 1 {
+                            // the classic "every n minutes/hours on the hour" shapes
+                            let mut f = ["*", "*", "*", "*", "*"];
+                            f[idx] = &l;
+                            if idx == 1 {
+                                f[0] = "0";
+                            }
+                            out.push(f.join(" "));
+                        }
+                    }
+                }
+            }
+        }
+    }
+    out.sort();
+    out.dedup();
     out
 }
 
